@@ -21,7 +21,7 @@ def T(pid, name, *edits):
 VARIANTS = [
     # ------------------------------------------------------------------ C15
     M("C15", "start-not-advanced", I, '            d["start"] += 1\n            d["end"] -= 1', '            d["end"] -= 1', "R1"),
-    M("C15", "suppress-one-base-gaps", I, '            if d["start"] > d["end"]:\n                return None', '            if d["start"] >= d["end"]:\n                return None', "R2"),
+    M("C15", "suppress-one-base-gaps", I, '            if d["start"] > d["end"]:\n                return None', '            if d["start"] >= d["end"]:\n                return None'),
     M("C15", "gap-ends-at-next-end", I, '            interfeature["end"] = f.start', '            interfeature["end"] = f.end', "R1"),
     M("C15", "strand-test-inverted", I, "            if last_feature.strand != f.strand:", "            if last_feature.strand == f.strand:", "R4"),
     MM("C15", "minus-labels-swapped", [
@@ -38,7 +38,7 @@ VARIANTS = [
     M("C15", "id-joined-by-comma", I, '                new_id = "-".join(new_feature.attributes["ID"])', '                new_id = ",".join(new_feature.attributes["ID"])', "R5"),
     M("C15", "previous-not-advanced", I, "            nfeatures = 1\n\n            last_feature = f\n", "            nfeatures = 1\n\n", "R1"),
     M("C15", "attributes-of-next-only", I, "                    attribute_func(last_feature.attributes),\n                    attribute_func(f.attributes),", "                    attribute_func(f.attributes),\n                    attribute_func(f.attributes),", "R5"),
-    M("C15", "input-mutated", I, "            interfeature[\"attributes\"] = new_attributes\n", "            interfeature[\"attributes\"] = new_attributes\n            f.attributes[\"seen\"] = [\"1\"]\n", "R8"),
+    M("C15", "input-mutated", I, "            interfeature[\"attributes\"] = new_attributes\n", "            interfeature[\"attributes\"] = new_attributes\n            f.attributes[\"seen\"] = [\"1\"]\n"),
     T("C15", "offsets-at-assignment", (I, '            interfeature["start"] = last_feature.stop\n            interfeature["end"] = f.start', '            interfeature["start"] = last_feature.stop + 1\n            interfeature["end"] = f.start - 1'),
       (I, '            d["start"] += 1\n            d["end"] -= 1\n', "")),
     T("C15", "labels-from-dict", (I, '''                new_featuretype = "splice_site"
